@@ -38,7 +38,7 @@
        (C11_tarjan_components_partial, C11_tarjan_disjoint_partial, C11_tarjan_statistics). *)
 From Coq Require Import List NArith ZArith Bool Arith Permutation.
 From PV Require Import Gen.DepsConst Deps.SccSpec Deps.SccSpecProofs Deps.Tarjan Deps.DepsRun
-  Deps.TarjanProofs Deps.TarjanInv Deps.TarjanBounded Deps.TarjanCorrect Deps.TarjanWf Tie.DepsTie.
+  Deps.TarjanProofs Deps.TarjanInv Deps.TarjanBounded Deps.TarjanCorrect Deps.TarjanWf Tie.DepsTie Deps.SeverityMono.
 Import ListNotations.
 Local Open Scope nat_scope.
 
@@ -201,6 +201,12 @@ Theorem C11_severity_table : forall hasCore size, (2 <= size)%Z ->
   (circ_assess hasCore size = 2%Z <-> hasCore = false /\ (3 <= size <= 5)%Z) /\
   (circ_assess hasCore size = 1%Z <-> hasCore = false /\ size = 2%Z).
 Proof. exact severity_iff. Qed.
+(* a larger cycle, or one that gains a core member, is never less severe; the level is always 1..4 *)
+Theorem C11_severity_monotone : forall hasCore hasCore' size size', core_le hasCore hasCore' -> (size <= size')%Z ->
+  (circ_assess hasCore size <= circ_assess hasCore' size')%Z.
+Proof. exact severity_mono. Qed.
+Theorem C11_severity_range : forall hasCore size, (1 <= circ_assess hasCore size <= 4)%Z.
+Proof. exact severity_range. Qed.
 Theorem C11_severity_counts_total : forall g comps,
   let r := assemble g comps in (r_low r + r_medium r + r_high r + r_critical r = r_total_cycles r)%Z.
 Proof. exact severity_counts_total. Qed.
@@ -239,3 +245,5 @@ Print Assumptions C11_tarjan_components_strongly_connected.
 Print Assumptions C11_tarjan_complete.
 Print Assumptions C11_tarjan_checked.
 Print Assumptions C11_detect_exact.
+Print Assumptions C11_severity_monotone.
+Print Assumptions C11_severity_range.
